@@ -60,12 +60,15 @@ def entry_table(table, key):
 
     def run(node, lo, hi):
         e_max, m_max = 0.0, 0.0
+        first = True
         for (a_, b_) in ([(lo, hi), (-hi, -lo)] if plain else [(lo, hi)]):  # plain entries take signed arguments
             env = {("x", 0, 0): IV(a_, b_)}
             er = {("x", 0, 0): REL_IN * max(abs(a_), abs(b_))}
             m = fperr.analyse(g, [node], env, er)
             v, e = m[node]
-            e_max, m_max = max(e_max, e), max(m_max, v.mag())
+            e_max = max(e_max, e)
+            m_max = v if first else m_max.hull(v)
+            first = False
         return e_max, m_max
 
     # Taylor branch: [0, thr (1 + 1e-9)]
@@ -89,14 +92,14 @@ def coef_error(table, key, lo, hi):
     """(max error, max magnitude) of the computed coefficient for arguments in [lo, hi] (plain table: |arg|)"""
     rows = entry_table(table, key)
     e = 0.0
-    mg = 0.0
+    mg = None
     for a, b, er, m, tag in rows:
         if b < lo or a > hi:
             continue
         e = max(e, er)
-        mg = max(mg, m)
-    if hi > A_MAX:
-        return math.inf, math.inf
+        mg = m if mg is None else mg.hull(m)
+    if hi > A_MAX or mg is None:
+        return math.inf, IV(-math.inf, math.inf)
     return e, mg
 
 
@@ -108,15 +111,50 @@ def coef_error_abs(table, key, hi, e_in):
     c, T, C = split_branches(g, n)
     entry_table(table, key)
     hi = min(hi, _thr[(table, key)] * (1 + 1e-9))
-    e_max, m_max = 0.0, 0.0
+    e_max, m_max = 0.0, None
     k = 8
     for j in range(k):
         a_, b_ = hi * j / k, hi * (j + 1) / k
         for (x0, x1) in ([(a_, b_), (-b_, -a_)] if table == "SERIES" else [(a_, b_)]):
             m = fperr.analyse(g, [T], {("x", 0, 0): IV(x0, x1)}, {("x", 0, 0): e_in})
             v, e = m[T]
-            e_max, m_max = max(e_max, e), max(m_max, v.mag())
+            e_max = max(e_max, e)
+            m_max = v if m_max is None else m_max.hull(v)
     return e_max, m_max
+
+
+def coef_error_range_abs(table, key, lo, hi, e_in):
+    """both branches as selected on [lo, hi] with an ABSOLUTE input error e_in (used when the argument's error is not
+    small relative to the argument: first shell, arguments obtained through acos, ...)"""
+    from .c06 import entry_graph, split_branches
+    F = (SQUARED_SERIES if table == "SQUARED_SERIES" else SERIES)[key]
+    g, n = entry_graph(F)
+    c, T, C = split_branches(g, n)
+    entry_table(table, key)
+    thr = _thr[(table, key)]
+    if hi > A_MAX:
+        return math.inf, IV(-math.inf, math.inf)
+    e_max, m_max = 0.0, None
+    pieces = []
+    if lo < thr * (1 + 1e-9):
+        t_hi = min(hi, thr * (1 + 1e-9))
+        k = 8
+        for j in range(k):
+            pieces.append((T, lo + (t_hi - lo) * j / k, lo + (t_hi - lo) * (j + 1) / k))
+    if hi > thr * (1 - 1e-9):
+        x = max(lo, thr * (1 - 1e-9) - 4 * e_in)
+        x = max(x, thr * 0.5)
+        while x < hi:
+            y = min(x * (1 + 4 * ETA_SUB), hi)
+            pieces.append((C, x, y))
+            x = y
+    for node, x0, x1 in pieces:
+        for (p0, p1) in ([(x0, x1), (-x1, -x0)] if table == "SERIES" else [(x0, x1)]):
+            m = fperr.analyse(g, [node], {("x", 0, 0): IV(p0, p1)}, {("x", 0, 0): e_in})
+            v, e = m[node]
+            e_max = max(e_max, e)
+            m_max = v if m_max is None else m_max.hull(v)
+    return e_max, (m_max if m_max is not None else IV(-math.inf, math.inf))
 
 
 def shells():
@@ -129,9 +167,10 @@ def shells():
 
 
 class FPJob:
-    def __init__(self, name, n_in, rot, build):
+    def __init__(self, name, n_in, rot, build, other=1.0, box_fn=None):
         self.id = f"C06.fp[{name}]"
         self.name, self.n_in, self.rot, self.build = name, n_in, rot, build
+        self.other, self.box_fn = other, box_fn
         self.functions = [symbolic.taylor_series_near_zero]
         self.lemmas = ["A-FP standard floating-point model", "L-TAYLOR"]
         self.assumptions = ["A-FP: IEEE doubles, round to nearest, U = 2^-53; libm sin/cos/tan/atan/pow within 1 ulp; sqrt correctly rounded"]
@@ -143,55 +182,59 @@ class FPJob:
             calls = []
             with stub_series(calls):
                 out = ca.vec(ca.SX(self.build(w)))
-            c = ca.vertcat(*[s for _, _, _, s in calls])
-            g, on, n_instr = ir.extract({"w": w, "c": c}, {"out": out, "args": ca.vertcat(*[a for _, _, a, _ in calls])})
+            if calls:
+                c = ca.vertcat(*[s for _, _, _, s in calls])
+                g, on, n_instr = ir.extract({"w": w, "c": c}, {"out": out, "args": ca.vertcat(*[a for _, _, a, _ in calls])})
+                arg_nodes = [row[0] for row in on["args"]]
+            else:
+                g, on, n_instr = ir.extract({"w": w}, {"out": out})
+                arg_nodes = []
             out_nodes = [row[0] for row in on["out"]]
-            arg_nodes = [row[0] for row in on["args"]]
             a, b = self.rot
             worst = (0.0, None)
             undec = None
+            r_max = getattr(self, "r_max", 1.0)
             for (r0, r1) in shells():
-                # argument ranges over the shell: upper bound over the box, lower bound over the 2*(b-a) slabs
-                box = {("w", i, 0): (IV(-r1, r1) if a <= i < b else IV(-1.0, 1.0)) for i in range(self.n_in)}
-                for j in range(len(calls)):
-                    box[("c", j, 0)] = IV(0.0)
-                memo = fperr.analyse(g, arg_nodes, box, {})
-                hi = [memo[n][0].mag() + memo[n][1] for n in arg_nodes]
-                earg = [memo[n][1] for n in arg_nodes]
-                lo = [math.inf] * len(calls)
-                if r0 > 0:
-                    for k in range(a, b):
-                        for sgn in (1, -1):
-                            slab = dict(box)
-                            slab[("w", k, 0)] = IV(r0, r1) if sgn > 0 else IV(-r1, -r0)
-                            mm = eval_iv(g, arg_nodes, slab)
-                            for j, n in enumerate(arg_nodes):
-                                lo[j] = min(lo[j], mm[n].mig())
-                else:
-                    lo = [0.0] * len(calls)
+                if r0 >= r_max:
+                    break
+                r1 = min(r1, r_max)
+                box = {("w", i, 0): (IV(-r1, r1) if a <= i < b else IV(-self.other, self.other)) for i in range(self.n_in)}
+                if self.box_fn:
+                    box.update(self.box_fn(r0, r1))
                 env_val = dict(box)
                 env_err = {}
+                for j in range(len(calls)):
+                    env_val[("c", j, 0)] = IV(0.0)
+                # coefficient call sites in creation order: the argument of a later one may depend on earlier coefficients
                 for j, (table, key, arg, s) in enumerate(calls):
-                    if lo[j] > 0:
-                        if earg[j] > REL_IN * lo[j]:
-                            raise TaylorError(f"argument error {earg[j]:.2e} of {key} exceeds the assumed relative perturbation {REL_IN:.1e} * {lo[j]:.3g}")
-                        e, mg = coef_error(table, key, lo[j] * (1 - 1e-9), hi[j] * (1 + 1e-9))
-                    else:
-                        e, mg = coef_error_abs(table, key, hi[j] * (1 + 1e-9), earg[j])
-                        entry_table(table, key)
-                        thr0 = _thr[(table, key)]
-                        if hi[j] >= thr0 * (1 - 1e-6):  # the shell reaches past the switch: closed-form rows as well
-                            if earg[j] > REL_IN * thr0 * 0.99:
-                                raise TaylorError(f"argument error {earg[j]:.2e} of {key} too large at the switch")
-                            e2, mg2 = coef_error(table, key, thr0 * (1 - 1e-9), hi[j] * (1 + 1e-9))
-                            e, mg = max(e, e2), max(mg, mg2)
+                    n = arg_nodes[j]
+                    memo = fperr.analyse(g, [n], env_val, env_err)
+                    av, earg = memo[n] if n is not None else (IV(0.0), 0.0)
+                    if not math.isfinite(earg) or not av.finite():
+                        raise TaylorError(f"argument of {key} cannot be bounded on shell ({r0:.3g}, {r1:.3g})")
+                    hi = av.mag() + earg
+                    lo = 0.0
+                    if r0 > 0:
+                        lo = math.inf
+                        for k in range(a, b):
+                            for sgn in (1, -1):
+                                slab = dict(env_val)
+                                slab[("w", k, 0)] = IV(r0, r1) if sgn > 0 else IV(-r1, -r0)
+                                if self.box_fn:
+                                    pass
+                                mm = fperr.analyse(g, [n], slab, env_err)
+                                lo = min(lo, max(mm[n][0].mig() - mm[n][1], 0.0))
                     entry_table(table, key)
                     thr = _thr[(table, key)]
-                    if lo[j] <= thr * (1 + 1e-6):
+                    if lo > 0 and earg <= REL_IN * lo:
+                        e, mg = coef_error(table, key, lo * (1 - 1e-9), hi * (1 + 1e-9))
+                    else:
+                        e, mg = coef_error_range_abs(table, key, lo, hi * (1 + 1e-9), earg)
+                    if lo <= thr * (1 + 1e-6):
                         if thr > EPS * (1 + 1e-9):
                             raise TaylorError(f"{key}: switch threshold {thr} above the cell of the truncation lemma")
                         e += entry_bounds(table, key, EPS)[0]  # truncation of the Taylor branch (lemma proved on |arg| < 1e-3)
-                    env_val[("c", j, 0)] = IV(-mg, mg)
+                    env_val[("c", j, 0)] = IV(mg.lo - e, mg.hi + e) if math.isfinite(e) else mg
                     env_err[("c", j, 0)] = e
                 memo = fperr.analyse(g, out_nodes, env_val, env_err)
                 for i, n in enumerate(out_nodes):
@@ -209,7 +252,12 @@ class FPJob:
                 return [Result(self.id, "floating-point bound", UNDECIDED, "FPERR", "", time.time() - t0,
                                f"analysis cannot bound output {undec[2]} on shell {undec[:2]} (undetermined branch / divisor enclosure contains 0)")]
             ok = worst[0] <= TARGET
-            return [Result(self.id, f"{self.name}: |double-precision value - exact value| <= 1e-9 for all rotation components in [-1, 1] (covers 0..1 rad and both sides of every switch), other inputs in [-1, 1]",
+            rm = getattr(self, "r_max", 1.0)
+            if not ok:
+                # an over-approximate bound above the target decides nothing by itself (the bounded sweeps look for real violations)
+                return [Result(self.id, "floating-point bound", UNDECIDED, "FPERR", "", time.time() - t0,
+                               f"rigorous bound {worst[0]:.3e} exceeds 1e-9 on shell {worst[1][:2] if worst[1] else None}: not a refutation (over-approximation)")]
+            return [Result(self.id, f"{self.name}: |double-precision value - exact value| <= 1e-9 for all rotation components in [-{rm}, {rm}] (covers rotation magnitudes 0..{rm} rad and both sides of every switch), other inputs in [-1, 1]",
                            PROVED if ok else REFUTED, "FPERR", "", time.time() - t0,
                            f"rigorous bound {worst[0]:.3e} (worst shell rho in {worst[1][:2] if worst[1] else None}); {len(calls)} coefficient call sites, {len(shells())} shells, {n_instr} instructions",
                            None if ok else {"inputs": {"bound": worst[0], "shell": worst[1]}}, len(out_nodes))]
@@ -228,6 +276,40 @@ FP_CONSUMERS = ["so3.left_jacobian", "so3.left_jacobian_inv", "so3.right_jacobia
                 "se23.left_jacobian", "se23.right_jacobian", "se23.left_jacobian_inv", "SE2.exp", "SE3Quat.Ad(exp)"]
 
 
+def extra_consumers():
+    """logs (composed with exp so that the input is a free rotation vector) and series-free conversions"""
+    from cyecca.lie.group_so3 import so3, SO3Quat, SO3Mrp, SO3Dcm, SO3EulerB321
+    from cyecca.lie.group_se3 import se3, SE3Quat, SE3Mrp
+    from cyecca.lie.group_se2 import se2, SE2
+    E = {
+        "SO3Mrp.log": (3, (0, 3), lambda r: SO3Mrp.elem(r).log().param, 0.26),  # |r| = tan(theta/4) <= 0.26 for theta <= 1
+        "SO3Mrp.log(exp)": (3, (0, 3), lambda w: so3.elem(w).exp(SO3Mrp).log().param, 1.0),
+        "SE3Mrp.log(exp)": (6, (3, 6), lambda w: se3.elem(w).exp(SE3Mrp).log().param, 0.55),
+        "SE2.log(exp)": (3, (2, 3), lambda w: se2.elem(w).exp(SE2).log().param, 1.0),
+        "conv Quat.from_Mrp": (3, (0, 3), lambda r: SO3Quat.from_Mrp(SO3Mrp.elem(r)).param, 0.26),
+        "conv Dcm.from_Mrp": (3, (0, 3), lambda r: SO3Dcm.from_Mrp(SO3Mrp.elem(r)).param, 0.26),
+        "conv Mrp.from_Quat(exp)": (3, (0, 3), lambda w: SO3Mrp.from_Quat(so3.elem(w).exp(SO3Quat)).param, 1.0),
+        "conv Dcm.from_Quat(exp)": (3, (0, 3), lambda w: SO3Dcm.from_Quat(so3.elem(w).exp(SO3Quat)).param, 1.0),
+        "conv Quat.from_Dcm(exp)": (3, (0, 3), lambda w: SO3Quat.from_Dcm(so3.elem(w).exp(SO3Dcm)).param, 0.55),
+        "conv Mrp.from_Dcm(exp)": (3, (0, 3), lambda w: SO3Mrp.from_Dcm(so3.elem(w).exp(SO3Dcm)).param, 0.55),
+        "conv Euler.from_Quat(exp)": (3, (0, 3), lambda w: SO3EulerB321.from_Quat(so3.elem(w).exp(SO3Quat)).param, 0.55),
+    }
+    return E
+
+
+class FPJobR(FPJob):
+    """same analysis with the shells cut at a maximal rotation-component radius r_max (interval dependency makes some
+    branch tests undecidable on the corners of larger boxes; r_max = 0.55 still contains every rotation up to 0.55 rad per
+    axis, i.e. the ball of 0.55 rad; stated in the obligation)"""
+
+    def __init__(self, name, n_in, rot, build, r_max):
+        super().__init__(name, n_in, rot, build)
+        self.r_max = r_max
+
+
 def jobs():
     C = lie_consumers()
-    return [FPJob(n, *C[n]) for n in FP_CONSUMERS]
+    J = [FPJob(n, *C[n]) for n in FP_CONSUMERS]
+    for n, (n_in, rot, build, r_max) in extra_consumers().items():
+        J.append(FPJobR(n, n_in, rot, build, r_max))
+    return J
